@@ -60,6 +60,89 @@ pub fn show(r: &Result<Vec<Texture>, TextureParseError>, enc: NameEnc) -> String
     }
 }
 
+fn le32(v: &mut Vec<u8>, x: u32) {
+    v.extend_from_slice(&x.to_le_bytes());
+}
+
+/// single-texture CTPK whose payload (all zero, `len` bytes) ends the file
+pub fn ctpk_tail(fmt: u32, w: u16, h: u16, len: usize) -> Vec<u8> {
+    let mut f: Vec<u8> = Vec::with_capacity(0x48 + len);
+    le32(&mut f, 0x4b505443);
+    f.extend_from_slice(&1u16.to_le_bytes());
+    f.extend_from_slice(&1u16.to_le_bytes());
+    le32(&mut f, 0x48);
+    le32(&mut f, len as u32);
+    f.extend_from_slice(&[0u8; 16]);
+    le32(&mut f, 0x40);
+    le32(&mut f, len as u32);
+    le32(&mut f, 0);
+    le32(&mut f, fmt);
+    f.extend_from_slice(&w.to_le_bytes());
+    f.extend_from_slice(&h.to_le_bytes());
+    f.extend_from_slice(&[1, 0, 0, 0]);
+    f.extend_from_slice(&[0u8; 8]);
+    f.extend_from_slice(b"t\0\0\0\0\0\0\0");
+    f.resize(0x48 + len, 0);
+    f
+}
+
+/// single-texture BCH (backward compatibility 0x21, 64-byte header) whose payload ends the file
+pub fn bch_tail(fmt: u32, w: u16, h: u16, len: usize) -> Vec<u8> {
+    let (ca, table, rec, cmd, name, data) = (64u32, 112u32, 116u32, 148u32, 176u32, 180u32);
+    let mut f: Vec<u8> = Vec::with_capacity(data as usize + len);
+    le32(&mut f, 0x00484342);
+    f.extend_from_slice(&[0x21, 0x21, 0, 0xA0]);
+    for x in [ca, 0, 0, 0].iter() {
+        le32(&mut f, *x);
+    }
+    f.resize(64, 0);
+    f.resize(112, 0);
+    f[(ca + 0x24) as usize..(ca + 0x28) as usize].copy_from_slice(&(table - ca).to_le_bytes());
+    f[(ca + 0x28) as usize..(ca + 0x2C) as usize].copy_from_slice(&1u32.to_le_bytes());
+    le32(&mut f, rec - ca);
+    f.resize(148, 0);
+    f[rec as usize..rec as usize + 4].copy_from_slice(&cmd.to_le_bytes());
+    f[rec as usize + 28..rec as usize + 32].copy_from_slice(&name.to_le_bytes());
+    f.resize(176, 0);
+    f[cmd as usize..cmd as usize + 2].copy_from_slice(&h.to_le_bytes());
+    f[cmd as usize + 2..cmd as usize + 4].copy_from_slice(&w.to_le_bytes());
+    f[cmd as usize + 16..cmd as usize + 20].copy_from_slice(&data.to_le_bytes());
+    f[cmd as usize + 24..cmd as usize + 28].copy_from_slice(&fmt.to_le_bytes());
+    f.extend_from_slice(b"t\0\0\0");
+    f.resize(data as usize + len, 0);
+    f
+}
+
+/// `f32 <fmt> <w> <h>`: how many payload bytes does the reader ask for?  The true payload size is T = bpp*w*h (format
+/// documentation, rounded down); the file is built with T + d payload bytes at its end for d = -2..2 and read each time:
+/// one letter per d, O = accepted, E = error, P = panic.  Formats 10 / 11 only (their decoder never looks at the data,
+/// so the outcome is decided by `read_exact` alone).
+pub fn f32_probe(toks: &[&str], reader: Reader, build: fn(u32, u16, u16, usize) -> Vec<u8>) -> String {
+    let fmt: u32 = toks[1].parse().unwrap();
+    let w: u16 = toks[2].parse().unwrap();
+    let h: u16 = toks[3].parse().unwrap();
+    let bpp2: u64 = match fmt {
+        10 => 1,
+        11 => 2,
+        _ => return "unmodelled".to_string(),
+    };
+    let t = (bpp2 * w as u64 * h as u64 / 2) as i64;
+    let mut out = String::new();
+    for d in -2i64..=2 {
+        let file = build(fmt, w, h, (t + d).max(0) as usize);
+        let res = panic::catch_unwind(|| match reader(&file) {
+            Ok(ts) => ts.len() == 1 && ts[0].width == w as usize && ts[0].height == h as usize,
+            Err(_) => false,
+        });
+        out.push(match res {
+            Err(_) => 'P',
+            Ok(true) => 'O',
+            Ok(false) => 'E',
+        });
+    }
+    out
+}
+
 pub fn run_kind(toks: &[&str], reader: Reader, enc: NameEnc) -> String {
     match toks[0] {
         "ref" | "full" => {
